@@ -173,6 +173,7 @@ def _repo_fingerprint() -> str:
         with open(f, "rb") as fh:
             h.update(hashlib.sha256(fh.read()).digest())
     h.update(sys.version.encode())
+    h.update(b"corpus-rules-v2")  # bump when the inclusion rule of _build_file changes
     return h.hexdigest()[:20]
 
 
@@ -190,8 +191,17 @@ def _build_file(path: str) -> list[tuple[str, int, str, str]]:
     for ci, chunk in enumerate(text.split("// -----")):
         if not chunk.strip():
             continue
+        # whether a chunk belongs to the corpus must be a function of the tree alone: the
+        # size limit is a count of Python calls (deterministic), the CPU watchdog is only a
+        # backstop far above it (a chunk near a CPU-time limit would be in the corpus of
+        # one process and not of another, and every later choice would shift)
+        _mon_init()
+        mon = sys.monitoring
+        _clock["n"] = 0
+        _clock["budget"] = 3_000_000
         try:
-            arm_watchdog(3.0)
+            arm_watchdog(120.0)
+            mon.set_events(_TOOL, mon.events.PY_START)
             try:
                 m = Parser(full, chunk).parse_module()
                 m.verify()
@@ -201,8 +211,10 @@ def _build_file(path: str) -> list[tuple[str, int, str, str]]:
                 m2 = Parser(core, g).parse_module()
                 m2.verify()
             finally:
+                mon.set_events(_TOOL, 0)
                 disarm_watchdog()
         except BaseException:  # noqa: BLE001 - anything that is not a clean chunk is skipped
+            mon.set_events(_TOOL, 0)
             disarm_watchdog()
             continue
         out.append((os.path.relpath(path, REPO), ci, g, chunk))
@@ -290,12 +302,14 @@ def build_corpus(workers: int = 8) -> Corpus:
     with open(tmp, "w") as f:
         json.dump(items, f)
     os.replace(tmp, cache)
-    for old in glob.glob(os.path.join(CACHE_DIR, "corpus-*.json")):
-        if old != cache:
-            try:
-                os.remove(old)
-            except OSError:
-                pass
+    # keep the caches of a few other trees (scratch worktrees of concurrent runs): only the
+    # oldest ones beyond eight are removed
+    others = sorted((f for f in glob.glob(os.path.join(CACHE_DIR, "corpus-*.json")) if f != cache), key=lambda f: os.path.getmtime(f) if os.path.exists(f) else 0)
+    for old in others[:-8]:
+        try:
+            os.remove(old)
+        except OSError:
+            pass
     return Corpus(items)
 
 
